@@ -3,7 +3,7 @@
 SID=$1; shift
 D=/verif/seeded/$SID
 # works in a scratch worktree of /repo's HEAD (created on demand), never in /repo itself
-WT=/tmp/wt_recheck
+WT=${WT_RECHECK:-/tmp/wt_recheck}
 [ -d "$WT" ] || git -C /repo worktree add -q --detach "$WT" HEAD
 cd "$WT" || exit 2
 git checkout -q --detach $(git -C /repo rev-parse HEAD) 2>/dev/null; git checkout -q -- . 
